@@ -1,2 +1,98 @@
 //! verification hooks for engine `parse` (cfg(xray_verif) only)
+//!
+//! `parse_expr_dump(scope, src)`: the source text is parsed with the grammar's `eval` rule
+//! (`SOI ~ expression ~ EOI`) and handed to the real `parse_expr`; the resulting `XStaticExpr` — the
+//! tree *after* operator / method / index desugaring and *before* overload resolution — is printed as
+//! an S-expression:
+//!   (int N) (float BITS) (bool true|false) (str "..") (id NAME) (spec NAME) (lambda)
+//!   (call F ARG..) (member E NAME) (mvalue E NAME) (mopt E NAME) (arr E..) (tup E..)
+//! Answers `syntax-error` when the grammar rejects the text and `parse-error <constructor name of the error kind>`
+//! when `parse_expr` does.
 #![allow(unreachable_pub, dead_code, unused_imports)]
+
+use crate::parser::{Rule, XRayParser};
+use crate::root_compilation_scope::{Interner, RootCompilationScope};
+use crate::xexpr::XStaticExpr;
+use crate::Identifier;
+use pest::Parser;
+use std::ops::DerefMut;
+
+fn name(interner: &Interner, id: Identifier) -> String {
+    interner.resolve(id).unwrap_or("?").to_string()
+}
+
+fn dump<W, R, T>(e: &XStaticExpr<W, R, T>, interner: &Interner, out: &mut String) {
+    match e {
+        XStaticExpr::LiteralBool(b) => out.push_str(if *b { "(bool true)" } else { "(bool false)" }),
+        XStaticExpr::LiteralInt(i) => out.push_str(&format!("(int {i})")),
+        XStaticExpr::LiteralFloat(f) => out.push_str(&format!("(float {:016x})", f.to_bits())),
+        XStaticExpr::LiteralString(s) => out.push_str(&format!("(str {s:?})")),
+        XStaticExpr::Array(items) => {
+            out.push_str("(arr");
+            for i in items {
+                out.push(' ');
+                dump(i, interner, out);
+            }
+            out.push(')');
+        }
+        XStaticExpr::Tuple(items) => {
+            out.push_str("(tup");
+            for i in items {
+                out.push(' ');
+                dump(i, interner, out);
+            }
+            out.push(')');
+        }
+        XStaticExpr::Call(f, args) => {
+            out.push_str("(call ");
+            dump(f, interner, out);
+            for a in args {
+                out.push(' ');
+                dump(a, interner, out);
+            }
+            out.push(')');
+        }
+        XStaticExpr::Member(obj, m) => {
+            out.push_str("(member ");
+            dump(obj, interner, out);
+            out.push_str(&format!(" {})", name(interner, *m)));
+        }
+        XStaticExpr::MemberValue(obj, m) => {
+            out.push_str("(mvalue ");
+            dump(obj, interner, out);
+            out.push_str(&format!(" {})", name(interner, *m)));
+        }
+        XStaticExpr::MemberOptValue(obj, m) => {
+            out.push_str("(mopt ");
+            dump(obj, interner, out);
+            out.push_str(&format!(" {})", name(interner, *m)));
+        }
+        XStaticExpr::Ident(id) => out.push_str(&format!("(id {})", name(interner, *id))),
+        XStaticExpr::SpecializedIdent(id, _) => out.push_str(&format!("(spec {})", name(interner, *id))),
+        XStaticExpr::Lambda(..) => out.push_str("(lambda)"),
+    }
+}
+
+pub fn parse_expr_dump<W, R, T>(scope: &mut RootCompilationScope<W, R, T>, src: &str) -> String {
+    let pair = match XRayParser::parse(Rule::eval, src) {
+        Ok(mut pairs) => pairs.next().unwrap().into_inner().next().unwrap(),
+        Err(_) => return "syntax-error".to_string(),
+    };
+    let r = scope
+        .scope
+        .verif_parse_expr(pair, scope.interner.borrow_mut().deref_mut());
+    match r {
+        Ok(e) => {
+            let mut out = String::new();
+            dump(&e, &scope.interner.borrow(), &mut out);
+            out
+        }
+        Err(e) => {
+            // `TracedCompilationError(kind, start, end)`: only the kind's constructor name is reported
+            let d = format!("{e:?}");
+            let d = d.strip_prefix("TracedCompilationError(").unwrap_or(&d);
+            let kind: String = d.chars().take_while(|c| c.is_alphanumeric() || *c == '_').collect();
+            format!("parse-error {kind}")
+        }
+    }
+}
